@@ -429,19 +429,57 @@ def undeclared_field_vs_names():
                 out.append(Case(J(L), limits=dict(steps=5000), meta=dict(gen='undeclared-field-' + namekind, sample=False)))
     return out
 
+def side_effects_in_subexpressions():
+    """a function called inside a statement changes what the statement has already looked at or is about to use: the file it writes to,
+    the record it copies from, the array it indexes, the variable it passes BYREF, the loop's iterator or bounds"""
+    pre = ['TYPE Rec', '  DECLARE n : INTEGER', '  DECLARE s : STRING', 'ENDTYPE', 'DECLARE cur : Rec', 'DECLARE other : Rec', 'DECLARE journal : ARRAY[1:3] OF Rec',
+           'DECLARE nums : ARRAY[1:3] OF INTEGER', 'DECLARE alt : ARRAY[1:3] OF INTEGER', 'DECLARE k : INTEGER', 'DECLARE slot : INTEGER',
+           'cur.n <- 20', 'cur.s <- "second"', 'other.n <- 1', 'other.s <- "other"', 'alt[1] <- 71', 'alt[2] <- 72', 'alt[3] <- 73', 'nums[1] <- 1', 'nums[2] <- 2', 'nums[3] <- 3', 'slot <- 0', 'k <- 5']
+    fns = {
+        'NextSlot': ['FUNCTION NextSlot() RETURNS INTEGER', '  slot <- slot + 1', '  cur.n <- cur.n + 1', '  cur.s <- "pending"', '  RETURN slot', 'ENDFUNCTION'],
+        'Swap': ['FUNCTION Swap() RETURNS INTEGER', '  nums <- alt', '  RETURN 2', 'ENDFUNCTION'],
+        'Repl': ['FUNCTION Repl() RETURNS INTEGER', '  cur <- other', '  RETURN 9', 'ENDFUNCTION'],
+        'CloseIt': ['FUNCTION CloseIt() RETURNS STRING', '  CLOSEFILE "f.txt"', '  RETURN "x"', 'ENDFUNCTION'],
+        'Reopen': ['FUNCTION Reopen() RETURNS STRING', '  CLOSEFILE "f.txt"', '  OPENFILE "f.txt" FOR READ', '  RETURN "y"', 'ENDFUNCTION'],
+        'ReopenW': ['FUNCTION ReopenW() RETURNS STRING', '  CLOSEFILE "f.txt"', '  OPENFILE "f.txt" FOR APPEND', '  RETURN "z"', 'ENDFUNCTION'],
+        'Bump': ['FUNCTION Bump() RETURNS INTEGER', '  k <- k + 10', '  RETURN 2', 'ENDFUNCTION'],
+    }
+    progs = [
+        (['NextSlot'], ['journal[NextSlot()] <- cur', 'OUTPUT journal[1].n, " ", journal[1].s, " ", cur.n']),
+        (['NextSlot'], ['journal[NextSlot()].n <- cur.n', 'OUTPUT journal[1].n, " ", cur.n']),
+        (['Swap'], ['nums[Swap()] <- nums[1] + 100', 'OUTPUT nums[1], " ", nums[2], " ", nums[3]']),
+        (['Swap'], ['OUTPUT nums[1] + nums[Swap()] + nums[1]']),
+        (['Repl'], ['cur.n <- Repl() + cur.n', 'OUTPUT cur.n, " ", cur.s']),
+        (['Repl'], ['other <- cur', 'journal[2] <- cur', 'cur.n <- Repl()', 'OUTPUT cur.n, " ", journal[2].n, " ", other.n']),
+        (['CloseIt'], ['OPENFILE "f.txt" FOR WRITE', 'WRITEFILE "f.txt", "a"', 'WRITEFILE "f.txt", CloseIt()', 'OUTPUT "after"']),
+        (['Reopen'], ['OPENFILE "f.txt" FOR WRITE', 'WRITEFILE "f.txt", "a"', 'WRITEFILE "f.txt", Reopen()', 'OUTPUT "after"']),
+        (['ReopenW'], ['OPENFILE "f.txt" FOR WRITE', 'WRITEFILE "f.txt", "a"', 'WRITEFILE "f.txt", ReopenW()', 'WRITEFILE "f.txt", "b"', 'CLOSEFILE "f.txt"', 'OUTPUT "after"']),
+        (['CloseIt'], ['OPENFILE "f.txt" FOR WRITE', 'WRITEFILE "f.txt", "a" & CloseIt() & CloseIt()', 'OUTPUT "after"']),
+        (['Bump'], ['FOR k <- 1 TO Bump()', '  OUTPUT k', 'NEXT k', 'OUTPUT k']),
+        (['Bump'], ['FOR i <- k TO k + Bump() STEP Bump()', '  OUTPUT i', '  IF i > 40 THEN', '    BREAK', '  ENDIF', 'NEXT i', 'OUTPUT k']),
+        (['Bump'], ['PROCEDURE Show(BYREF a : INTEGER, BYVAL b : INTEGER)', '  OUTPUT a, " ", b', '  a <- a + 1', 'ENDPROCEDURE', 'CALL Show(k, Bump())', 'OUTPUT k', 'CALL Show(nums[Bump()], k)', 'OUTPUT nums[2], " ", k']),
+        (['Bump'], ['nums[Bump()] <- k', 'OUTPUT nums[2], " ", k', 'k <- k + Bump() * k', 'OUTPUT k']),
+    ]
+    out = []
+    for names, body in progs:
+        L = pre + sum((fns[n] for n in names), []) + body
+        out.append(Case(J(L), files={'f.txt': b'old\n'}, limits=dict(steps=5000), meta=dict(gen='side-effect-subexpr', sample=False)))
+    return out
+
 def extra(pid, tier, rng):
     """the families each property's check runs in addition to its own generators"""
     if pid == 'C01':
         c = alias_then_replace() + shadowed_types() + deref_node_reuse() + far_seek() + far_dates_output() + far_dates_files()[0] + pedantic_tail_with_files() \
             + array_cross_types() + redeclared_bounds(rng) + scope_change_in_activation(rng) + empty_comment_faults()[:40] + call_type_matrix()
+        c += side_effects_in_subexpressions()
         c += rng.sample(retyped_sites(rng, n_orders=1), 40) + rng.sample(nested_undeclared(rng), 20) + undeclared_field_vs_names()[::3]
         return c
     if pid == 'C02': return concat_matrix() + retyped_sites(rng, ['plus', 'minus', 'div', 'concat', 'less', 'not', 'and', 'length', 'mid'])
     if pid == 'C03': return retyped_sites(rng, ['while', 'repeat', 'if', 'case', 'for', 'forstep', 'not']) + shadowed_condition(rng)
-    if pid == 'C04': return call_type_matrix() + scope_change_in_activation(rng) + nested_undeclared(rng) + alias_then_replace()
+    if pid == 'C04': return side_effects_in_subexpressions() + call_type_matrix() + scope_change_in_activation(rng) + nested_undeclared(rng) + alias_then_replace()
     if pid == 'C05': return call_type_matrix() + array_cross_types() + retyped_sites(rng, ['store', 'byval', 'fn', 'index']) + shadowed_types()
-    if pid == 'C06': return redeclared_bounds(rng) + retyped_sites(rng, ['index']) + array_cross_types()
-    if pid == 'C07': return shadowed_types() + alias_then_replace() + undeclared_field_vs_names()
+    if pid == 'C06': return side_effects_in_subexpressions() + redeclared_bounds(rng) + retyped_sites(rng, ['index']) + array_cross_types()
+    if pid == 'C07': return shadowed_types() + alias_then_replace() + undeclared_field_vs_names() + side_effects_in_subexpressions()
     if pid == 'C08': return scope_change_in_activation(rng)
     if pid == 'C09': return deref_node_reuse() + alias_then_replace()
     if pid == 'C10':
@@ -452,7 +490,7 @@ def extra(pid, tier, rng):
     if pid == 'C13': return far_dates_files()[0]
     if pid == 'C14': return far_seek()
     if pid == 'C15': return far_dates_files()[0] + far_dates_output()
-    if pid == 'C16': return pedantic_tail_with_files()
+    if pid == 'C16': return pedantic_tail_with_files() + side_effects_in_subexpressions()
     if pid == 'C18': return far_dates_output()
     if pid == 'C19': return array_cross_types() + shadowed_types()
     if pid == 'C20': return nested_undeclared(rng) + shadowed_condition(rng) + pedantic_tail_with_files()
